@@ -298,14 +298,19 @@ func CheckC13(r *Run) int {
 	stmtMenu := []string{"break", "continue", "return", "return 1", "return 1, 2", "gv", "1", "\"s\"", "(gv)", "void()", "print(void())", "panic(void())", "x := void()", "gv = void()",
 		"@ls(void())", "switch void() {\n}", "len(gsl)", "gsl[0]", "gs[0]", "gs[0:1]", "copy(gsl, gsl)", "itoa(gv)", "exists(gs)", "read(gs)", "input()", "two()", "x := two()", "gv, gs = two()",
 		"var y int", "y := []int{}", "func inner() {\n}", "import \"strings\"", "gv++", "gv += void()", "for {\n}", "if void() {\n}", "gsl[void()] = 1", "gsl[0] = void()", "write(gs, void())", "{", "}",
-		"print(\"hello\"[1])", "x := \"abc\"[0:2]", "print(`raw`[1:])", "return \"xyz\"[2]", "gs = \"s\"[0]", "print([]int{1}[0])", "print(len(\"abc\"[1:]))", "print((gs)[0])", "print(itoa(1)[0])", "print(void()[0])"}
+		"print(\"hello\"[1])", "x := \"abc\"[0:2]", "print(`raw`[1:])", "return \"xyz\"[2]", "gs = \"s\"[0]", "print([]int{1}[0])", "print(len(\"abc\"[1:]))", "print((gs)[0])", "print(itoa(1)[0])", "print(void()[0])",
+		"Pa, Pb := two()", "Pc := 1", "var Pd string", "Pe, pf := 1, \"s\"", "var Pg, ph = two()", "Pi := []int{1}", "Pj := void()", "pk, Pl := gv, gs"}
 	st = r.Eng.Explore(func(c *gosym.Ctx) interface{} {
 		ctx := ctxMenu[c.Choose("context", 0, len(ctxMenu)-1)]
 		stm := stmtMenu[c.Choose("statement", 0, len(stmtMenu)-1)]
 		src := "gv := 1\ngs := \"g\"\ngsl := []int{1}\nfunc void() {\n\tprint(0)\n}\nfunc two() (int, string) {\n\treturn 1, \"t\"\n}\n" + strings.ReplaceAll(ctx, "%S%", stm)
+		if c.Fork() {
+			// the same text as an imported file: its statements pass through the import merge of the importing parser
+			return totalityPath(c, map[string]gosym.Str{"main.tsh": gosym.Conc("import l \"lib.tsh\"\nprint(1)\n"), "lib.tsh": gosym.Conc(src)}, "main.tsh")
+		}
 		return totalityPath(c, map[string]gosym.Str{"main.tsh": gosym.Conc(src)}, "main.tsh")
 	}, opts(100000))
-	r.Absorb("H_C13_statements_in_contexts", st, fmt.Sprintf("%d statement forms (jumps, bare expressions, value-less calls as operands, declarations) x %d contexts (top level, if/else, for, switch, switch in for, function, switch/for in function, range), both targets", len(stmtMenu), len(ctxMenu)))
+	r.Absorb("H_C13_statements_in_contexts", st, fmt.Sprintf("%d statement forms (jumps, bare expressions, value-less calls as operands, declarations incl. public names) x %d contexts (top level, if/else, for, switch, switch in for, function, switch/for in function, range) x {main file, imported file}, both targets", len(stmtMenu), len(ctxMenu)))
 	flush()
 	// (e) call graphs whose number of call paths grows exponentially with their depth
 	depths := []int{8, 24, 48}
